@@ -176,7 +176,12 @@ theorem tinv_step {s s' : St} {l : Label} (hi : TInv s) (h : step s l = some s')
             have hfin : (s.host k).ph = .finished := by simpa [fanGuard] using hg
             simp only [localOf, fanLocal, hostStep_other]
             exact ⟨by simp [phOK, Fan.WAct.post, hfin], hho⟩
-          | destroyEnd | lock | signal | unlock =>
+          | destroyEnd =>
+            simp only [localOf, fanLocal, if_true]
+            have hfin : (s.host k).ph = .finished := by simpa [phOK, Fan.WAct.pre] using hsy
+            obtain ⟨h1, h2, _⟩ := hostInv_destEnd (sc := s.script k) hho hfin
+            exact ⟨by simp [phOK, Fan.WAct.post, h2], h1⟩
+          | lock | signal | unlock =>
             simp only [localOf, fanLocal, hostStep_other]
             have hfin : (s.host k).ph = .finished := by simpa [phOK, Fan.WAct.pre] using hsy
             exact ⟨by simp [phOK, Fan.WAct.post, hfin], hho⟩
